@@ -686,6 +686,76 @@ example : dateValidate (fun _ => .error "ValueError") (.datetime 2020 1 2 10 30 
 example : datetimeValidateC 6 (fun _ => .error "ValueError") (.date 2020 1 2) = .error "TypeError" := rfl
 example : timeValidateC 3 (fun _ => .error "ValueError") (.time 1 2 3 999999) = .ok (.time 1 2 3 999000) := by rfl
 
+/-! ### raw key values given for relationship attributes -/
+
+/-- **relationship attributes.** A raw key value is accepted for a relationship attribute exactly when the root key attribute's
+    own validation accepts it, and is normalised the same way — whatever the number of entities (0, 1, 2, …) whose primary key
+    is itself a relationship lies between them -/
+theorem C08_raw_key_levels (f : Val → Res) (n : Nat) (v : Val) : rawKeyValidate f n v = f v := by
+  induction n with
+  | zero => rfl
+  | succ n ih => simpa [rawKeyValidate] using ih
+
+/-- composite keys: the raw tuple is accepted iff it has one value per key column and every column's root attribute accepts its
+    value; the result is the list of the normalised values -/
+theorem C08_raw_key_composite (fs : List (Val → Res)) (vs rs : List Val) :
+    rawKeyValidateComposite fs vs = .ok rs ↔
+      fs.length = vs.length ∧ rs.length = vs.length ∧ ∀ i (h1 : i < fs.length) (h2 : i < vs.length) (h3 : i < rs.length), fs[i] vs[i] = .ok rs[i] := by
+  induction fs generalizing vs rs with
+  | nil =>
+    cases vs with
+    | nil => cases rs <;> simp [rawKeyValidateComposite]
+    | cons v vs => simp [rawKeyValidateComposite]
+  | cons f fs ih =>
+    cases vs with
+    | nil => simp [rawKeyValidateComposite]
+    | cons v vs =>
+      simp only [rawKeyValidateComposite]
+      cases hf : f v with
+      | error e =>
+        constructor
+        · intro h; cases h
+        · rintro ⟨_, hl, h⟩
+          cases rs with
+          | nil => simp at hl
+          | cons r rs' => have := h 0 (by simp) (by simp) (by simp); simp [hf] at this
+      | ok r =>
+        cases hrest : rawKeyValidateComposite fs vs with
+        | error e =>
+          constructor
+          · intro h; cases h
+          rintro ⟨hl1, hl2, h⟩
+          cases rs with
+          | nil => simp at hl2
+          | cons r' rs' =>
+            have := (ih vs rs').mpr ⟨by simpa using hl1, by simpa using hl2, fun i h1 h2 h3 => by
+              have := h (i + 1) (by simp; omega) (by simp; omega) (by simp; omega); simpa using this⟩
+            rw [hrest] at this; cases this
+        | ok rs0 =>
+          have ih' := ih vs rs0
+          simp only [Except.ok.injEq]
+          constructor
+          · intro h; subst h
+            obtain ⟨a, b, c⟩ := ih'.mp hrest
+            refine ⟨by simp [a], by simp [b], ?_⟩
+            intro i h1 h2 h3
+            cases i with
+            | zero => simpa using hf
+            | succ i => simpa using c i (by simpa using h1) (by simpa using h2) (by simpa using h3)
+          · rintro ⟨hl1, hl2, h⟩
+            cases rs with
+            | nil => simp at hl2
+            | cons r' rs' =>
+              have h0 := h 0 (by simp) (by simp) (by simp)
+              simp [hf] at h0
+              have := (ih vs rs').mpr ⟨by simpa using hl1, by simpa using hl2, fun i h1 h2 h3 => by
+                have := h (i + 1) (by simp; omega) (by simp; omega) (by simp; omega); simpa using this⟩
+              rw [hrest] at this
+              injection this with this
+              rw [h0, this]
+
+example : rawKeyValidate (intValidate (fun _ => none) { minVal := some 1, maxVal := some 1000, size := some 32, unsigned := some false }) 2 (.int 0) = .error "ValueError" := by rfl
+
 /-! ### non-vacuity: concrete declarations and values -/
 example : intInit false { size := some 8, min := some 0 } = .ok { minVal := some 0, maxVal := some 127, size := some 8, unsigned := some false } := by rfl
 example : intValidate (fun _ => none) { minVal := some 0, maxVal := some 127, size := some 8, unsigned := some false } (.int (-5)) = .error "ValueError" := by rfl
